@@ -163,7 +163,7 @@ fn gen_c15(seed: u64, idx: usize, _tier: Tier) -> C15Scenario {
         return gen_c15_prompt_then_flood(&mut rng0);
     }
     let mut rng = Rng::new(scenario_seed(seed, "C15", idx));
-    let p = GenParams { max_t: 6, undefined_pct: 5, ..Default::default() };
+    let p = GenParams { max_t: 6, undefined_pct: 5, nonexec_pct: 4, ..Default::default() };
     let spec = gen_world(&mut rng, &p);
     let mut opts = gen_opts(&mut rng, &spec);
     let mode = gen_mode(&mut rng, &spec, &mut opts, true);
@@ -225,6 +225,13 @@ fn gen_c15(seed: u64, idx: usize, _tier: Tier) -> C15Scenario {
         let mut targets = vec![];
         if rng.chance(1, 3) {
             targets.push(spec.targets[rng.below(spec.targets.len())].path.clone());
+        }
+        if spec.cmd_files.iter().any(|c| !c.exec) && rng.chance(2, 3) {
+            // with a member that cannot be started in the plan: a filter that names some of the other targets
+            let mut ts: Vec<String> = spec.targets.iter().map(|t| t.path.clone()).collect();
+            rng.shuffle(&mut ts);
+            ts.truncate(rng.range(1, ts.len().max(2) - 1));
+            targets = ts;
         }
         let mut commands = vec![];
         if rng.chance(1, 3) {
@@ -461,8 +468,11 @@ impl Property for C15 {
         }
     }
     fn generate(&self, seed: u64, idx: usize, tier: Tier) -> Value {
-        let mut v = serde_json::to_value(gen_c15(seed, idx, tier)).unwrap();
-        v["paired"] = json!(tier == Tier::Thorough || idx % 4 == 0);
+        let sc = gen_c15(seed, idx, tier);
+        // scenarios in which the listener's filter could matter to the plan are always run both ways
+        let filter_and_static_failure = sc.listener.as_ref().map(|l| !l.targets.is_empty()).unwrap_or(false) && sc.run.spec.cmd_files.iter().any(|c| !c.exec);
+        let mut v = serde_json::to_value(sc).unwrap();
+        v["paired"] = json!(tier == Tier::Thorough || idx % 4 == 0 || filter_and_static_failure);
         v
     }
     fn execute(&self, v: &Value) -> Outcome {
